@@ -519,7 +519,7 @@ func (g *fnGen) initGhosts(st *state) {
 		return
 	}
 	for _, gv := range g.ct.Ghosts {
-		ty, err := g.P.resolveType(gv.Type, g.fn.Pkg.Pkg, g.P.cs.Imports[g.ct.PkgPath])
+		ty, err := g.P.resolveType(gv.Type, g.typesPkgOfFn(), g.P.cs.Imports[g.ct.PkgPath])
 		if err != nil {
 			g.stale = append(g.stale, fmt.Sprintf("ghost var %s: %v", gv.Name, err))
 			continue
